@@ -3,6 +3,7 @@
 The analysed program is every *.py under <repo>/shexer.  Names are resolved per
 module through its import table (DESIGN 2.2 item 1)."""
 import ast
+import copy
 import os
 import re
 
@@ -55,6 +56,44 @@ class Func:
         self.is_property = "property" in self.decorators
         self.is_setter = "setter" in self.decorators
         self.is_generator = any(isinstance(n, (ast.Yield, ast.YieldFrom)) for n in walk_own(node))
+
+    @property
+    def local_names(self):
+        """Names bound inside the body (not parameters, not global/nonlocal)."""
+        if getattr(self, "_locals", None) is None:
+            bound, outer = set(), set()
+            for n in ast.walk(self.node):
+                if isinstance(n, ast.Name) and isinstance(n.ctx, (ast.Store, ast.Del)):
+                    bound.add(n.id)
+                elif isinstance(n, (ast.Global, ast.Nonlocal)):
+                    outer.update(n.names)
+                elif isinstance(n, ast.ExceptHandler) and n.name:
+                    bound.add(n.name)
+            a = self.node.args
+            params = {x.arg for x in a.posonlyargs + a.args + a.kwonlyargs}
+            if a.vararg:
+                params.add(a.vararg.arg)
+            if a.kwarg:
+                params.add(a.kwarg.arg)
+            self._locals = bound - outer - params
+        return self._locals
+
+    def key(self, node):
+        """Normalised text of a construct of this function for finding keys: layout-free and independent
+        of what the function's local variables are called (they print as $1, $2, ... in order of appearance)."""
+        if not isinstance(node, ast.AST):
+            return norm(node)
+        loc = self.local_names
+        if not loc:
+            return norm(node)
+        cp = copy.deepcopy(node)
+        names = {}
+        for n in _preorder(cp):
+            if isinstance(n, ast.Name) and n.id in loc:
+                n.id = names.setdefault(n.id, "$%d" % (len(names) + 1))
+            elif isinstance(n, ast.ExceptHandler) and n.name in loc:
+                n.name = names.setdefault(n.name, "$%d" % (len(names) + 1))
+        return norm(cp)
 
     @property
     def bound_params(self):
@@ -400,6 +439,12 @@ class Program:
 
 
 # ----------------------------------------------------------------- utilities
+def _preorder(node):
+    yield node
+    for c in ast.iter_child_nodes(node):
+        yield from _preorder(c)
+
+
 def norm(node_or_text):
     """Normalised source text of an AST node: the key of a finding never contains
     line numbers or layout."""
